@@ -605,6 +605,165 @@ class Gen:
         return "\n".join(self.defs + self.lines) + "\n"
 
 
+def rand_map(rng, keys=6, vals=3, p=0.5):
+    return {k: rng.randint(0, vals) for k in range(1, keys + 1) if rng.random() < p}
+
+
+def fmt_vmap(m):
+    return "{" + ",".join(f"{k}:{v}" for k, v in sorted(m.items())) + "}"
+
+
+def edit_map(rng, m, keys=6, vals=3):
+    m = dict(m)
+    r = rng.random()
+    if r < 0.08:
+        return {}
+    if r < 0.16:
+        return rand_map(rng, keys, vals)
+    if r < 0.24:
+        return m                      # equal map written again
+    for _ in range(rng.randint(1, 3)):
+        k = rng.randint(1, keys)
+        q = rng.random()
+        if q < 0.35:
+            m.pop(k, None)
+        else:
+            m[k] = rng.randint(0, vals)
+    return m
+
+
+def gen_maps(rng, debug=True, perkey=False):
+    """C15/C16/C17: incremental-map operators over map-valued vars, edit sequences with emptying and refilling,
+    observe / unobserve / re-observe of the outputs, an outer variable for the per-key families"""
+    stats = {}
+    def count(k):
+        stats[k] = stats.get(k, 0) + 1
+    lines = [f"cfg {'debug' if debug else 'release'}"]
+    defs, acts = [], []
+    nmf = 0
+    maps = [rand_map(rng), rand_map(rng)]
+    acts.append(f"var {fmt_vmap(maps[0])}")
+    acts.append(f"var {fmt_vmap(maps[1])}")
+    acts.append(f"var {rng.randint(0, 4)}")        # n2: outer variable
+    nodes = 3
+    outs = []
+    defs += ["fn f0 lin 7 0 2 1", "fn f1 lin 7 1 1", "fn f2 lin 7 0 1 1", "fn f3 lin 7 1 3",
+             "pk P0 lhsconst ; map f0 %0 %1 ; ret %2",        # pure function of value and key
+             "pk P1 map f1 n2 ; ret %1",                       # ignores its input
+             "pk P2 ret n2",                                   # one shared pre-existing node
+             "pk P3 lhsconst ; map f2 %0 n2 ; ret %2",         # map2 with the outer var
+             "pk P4 map f3 %0 ; map f1 %1 ; ret %2",           # chain
+             "body b0 2 ret n2 | lhsconst ; ret %0",
+             "pk P5 bind b0 %0 ; ret %1"]                      # bind on the value
+    n_ops = rng.randint(1, 3)
+    for _ in range(n_ops):
+        src = rng.choice([0, 1])
+        if perkey:
+            fam = rng.choice([0, 0, 1, 2, 3, 3, 4, 5])
+            ty = rng.choice(["bt", "ord"])
+            cut = rng.choice(["none", "none", "eq", "never", "always"])
+            acts.append(f"perkey {ty} {cut} P{fam} n{src}")
+            count(f"perkey_P{fam}_{ty}_{cut}")
+        else:
+            m = nmf; nmf += 1
+            defs.append(f"mfn M{m} {rng.randint(1, 2)} {rng.randint(0, 1)} {rng.choice([2, 3])} {rng.randint(0, 1)} {rng.randint(0, 3)}")
+            kind = rng.choice(["fm", "fm", "fold", "fold", "merge", "part"])
+            if kind == "fm":
+                acts.append(f"mapop fm {rng.choice(['bt', 'rc', 'ord'])} M{m} n{src}")
+            elif kind == "fold":
+                acts.append(f"mapop fold {rng.choice(['bt', 'rc', 'ord'])} M{m} {rng.randint(0, 1)} {rng.randint(0, 1)} n{src}")
+            elif kind == "merge":
+                acts.append(f"mapop merge {rng.choice(['bt', 'ord'])} M{m} n0 n1")
+            else:
+                acts.append(f"mapop part M{m} n{src}")
+            count("mapop_" + kind)
+        outs.append(nodes)
+        nodes += 1
+    obs = []          # (observer index, alive)
+    def observe(o):
+        acts.append(f"observe n{o}")
+        obs.append([o, True])
+    for o in outs:
+        observe(o)
+    acts.append("stabilise")
+    for _ in range(rng.randint(4, 14)):
+        r = rng.random()
+        if r < 0.55:
+            v = rng.choice([0, 1])
+            maps[v] = edit_map(rng, maps[v])
+            acts.append(f"set v{v} {fmt_vmap(maps[v])}")
+            count("set_map")
+        elif r < 0.65:
+            acts.append(f"set v2 {rng.randint(0, 4)}")
+            count("set_outer")
+        elif r < 0.75:
+            live = [i for i, (o, a) in enumerate(obs) if a]
+            if live:
+                i = rng.choice(live)
+                acts.append(f"disallow o{i}")
+                obs[i][1] = False
+                count("unobserve")
+        elif r < 0.85:
+            observe(rng.choice(outs))
+            count("reobserve")
+        acts.append("stabilise") if rng.random() < 0.7 else None
+    acts.append("stabilise")
+    acts.append("dropall")
+    return "\n".join(lines + defs + acts) + "\n", stats
+
+
+def gen_memo(rng, debug=True):
+    """C20/C12: memoised function called from top level and from (nested) bind bodies; handles dropped; bind re-runs"""
+    stats = {}
+    def count(k):
+        stats[k] = stats.get(k, 0) + 1
+    lines = [f"cfg {'debug' if debug else 'release'}"]
+    defs = ["fn f0 lin 7 0 1 2", "fn f1 lin 7 1 1", "fn f2 lin 7 0 1 1",
+            "memo m0 lhsconst ; map f0 n0 %0 ; ret %1",
+            "memo m1 lhsconst ; map f1 %0 ; map f2 %1 n1 ; ret %2",
+            "body b0 3 memocall m0 1 ; ret %0 | memocall m0 2 ; map f1 %0 ; ret %1 | memocall m1 1 ; ret %0",
+            "body b1 2 memocall m0 1 ; memocall m1 2 ; map f2 %0 %1 ; ret %2 | bind b0 n1 ; ret %0"]
+    acts = [f"var {rng.randint(0, 3)}", f"var {rng.randint(0, 3)}"]
+    nodes = 2
+    tops = []          # (ordinal, kind, dropped)
+    obs = 0
+    for _ in range(rng.randint(6, 20)):
+        r = rng.random()
+        if r < 0.25:
+            acts.append(f"memocall m{rng.choice([0, 1])} {rng.randint(1, 3)}")
+            tops.append([nodes, "memo", False]); nodes += 1
+            count("memocall_top")
+        elif r < 0.4:
+            acts.append(f"bind b{rng.choice([0, 1])} n{rng.choice([0, 1])}")
+            tops.append([nodes, "bind", False]); nodes += 1
+            count("bind")
+        elif r < 0.55:
+            live = [t for t in tops if not t[2]]
+            if live:
+                t = rng.choice(live)
+                acts.append(f"observe n{t[0]}")
+                obs += 1
+                count("observe")
+        elif r < 0.65:
+            if obs:
+                acts.append(f"dropobs o{rng.randrange(obs)}")
+                count("dropobs")
+        elif r < 0.75:
+            live = [t for t in tops if not t[2]]
+            if live:
+                t = rng.choice(live)
+                acts.append(f"drophandle n{t[0]}")
+                t[2] = True
+                count("drophandle")
+        elif r < 0.9:
+            acts.append(f"set v{rng.choice([0, 1])} {rng.randint(0, 3)}")
+            count("set")
+        acts.append("stabilise") if rng.random() < 0.5 else None
+    acts.append("stabilise")
+    acts.append("dropall")
+    return "\n".join(lines + defs + acts) + "\n", stats
+
+
 def gen_limits(rng, debug=True):
     """C19: height limits around N, reconfiguration at quiescent points, and the misuse stream"""
     stats = {}
@@ -716,6 +875,12 @@ def gen_history(seed, profile="general", n_actions=None, c01_safe=False, debug=T
     rng = random.Random(seed)
     if profile == "limits":
         return gen_limits(rng, debug)
+    if profile == "maps":
+        return gen_maps(rng, debug, perkey=False)
+    if profile == "perkey":
+        return gen_maps(rng, debug, perkey=True)
+    if profile == "memo":
+        return gen_memo(rng, debug)
     g = Gen(rng, profile, c01_safe)
     if n_actions is None:
         n_actions = rng.choice([8, 15, 25, 40, 60])
